@@ -130,11 +130,12 @@ func (h *NFSProcedureHandler) handleWrite(body io.Reader, reply *RPCReply, authC
 	}
 
 	// Bound count to the server's advertised write size to prevent DoS
-	maxWriteSize := uint32(h.server.handler.tuning.Load().TransferSize)
-	if maxWriteSize == 0 {
+	// (compared as 64-bit values: a TransferSize of 2^32 or more must not be cut to its low 32 bits)
+	maxWriteSize := int64(h.server.handler.tuning.Load().TransferSize)
+	if maxWriteSize <= 0 {
 		maxWriteSize = 1048576 // 1MB default
 	}
-	if count > maxWriteSize {
+	if int64(count) > maxWriteSize {
 		return nfsErrorWithWcc(reply, NFSERR_INVAL), nil
 	}
 
